@@ -475,6 +475,9 @@ impl GameEnv {
 
     /// Execute one pay strategy against merchant::Config::allow_payment.
     pub fn pay(&mut self, st: &Value) -> Value {
+        if st["token"].as_str() == Some("identity") {
+            return self.pay_identity(st);
+        }
         let history: Vec<i64> = st["history"].as_array().map(|a| a.iter().map(|x| x.as_i64().unwrap()).collect()).unwrap_or_default();
         let info = self.honest_ready(st["cb"].as_u64().unwrap_or(100), st["mb"].as_u64().unwrap_or(50), &history);
         let amount = st["amount"].as_i64().unwrap_or(7);
@@ -539,9 +542,8 @@ impl GameEnv {
         let rlb = CommitmentProofBuilder::<G1Projective, 1>::generate_proof_commitments(&mut rng, Message::new([hrl]), &[None], &revp);
         let rl_cs = rlb.conjunction_commitment_scalars()[0];
         let opt = |name: &str, v: Scalar| if linked(name) { Some(v) } else { None };
-        let ptb = SignatureProofBuilder::<5>::generate_proof_commitments(
-            &mut rng, Message::new(hpt), token,
-            &[None, None, opt("pt2", rl_cs), opt("pt3", cbs), opt("pt4", mbs)], &pk);
+        let pt_links = [None, None, opt("pt2", rl_cs), opt("pt3", cbs), opt("pt4", mbs)];
+        let ptb = SignatureProofBuilder::<5>::generate_proof_commitments(&mut rng, Message::new(hpt), token, &pt_links, &pk);
         let pt_cs = *ptb.conjunction_commitment_scalars();
         let stb = SignatureRequestProofBuilder::<5>::generate_proof_commitments(
             &mut rng, Message::new(hst), &[opt("st0", pt_cs[0]), None, None, opt("st3", cbs), opt("st4", mbs)], &pk);
@@ -686,48 +688,7 @@ impl GameEnv {
 
         // ---- independent relation atoms on the final proof under the verifier's challenge
         let ft = Tree { bytes: fin.clone(), leaves: tpl.leaves.clone() };
-        let sp_pt = Sp::from_tree(&ft, "old_pay_token_proof").unwrap();
-        let cp_rl = Cp { c: ft.bytes_at("old_revocation_lock_proof.commitment").unwrap().to_vec(),
-                         t: ft.bytes_at("old_revocation_lock_proof.scalar_commitment").unwrap().to_vec(),
-                         zbf: indep::sc(ft.bytes_at("old_revocation_lock_proof.blinding_factor_response_scalar").unwrap()).unwrap(),
-                         z: vec![indep::sc(ft.bytes_at("old_revocation_lock_proof.message_response_scalars.0").unwrap()).unwrap()] };
-        let cp_st = Cp::from_tree(&ft, "state_proof.commitment_proof").unwrap();
-        let cp_cl = Cp::from_tree(&ft, "close_state_proof.commitment_proof").unwrap();
-        let (pt_wf, pt_schnorr, pt_pair) = sp_pt.relations(&pkv, &c1);
-        let range_atoms = |prefix: &str, expected: &Scalar| -> (bool, bool) {
-            let mut all = true;
-            let mut sum = Scalar::zero();
-            let mut pow = Scalar::one();
-            let mut j = 0;
-            while let Some(sp) = Sp::from_tree(&ft, &format!("{}.digit_proofs.{}", prefix, j)) {
-                let (a, b, c) = sp.relations(&rpk, &c1);
-                all = all && a && b && c;
-                sum += pow * sp.cp.z[0];
-                pow *= Scalar::from(128u64);
-                j += 1;
-            }
-            (all && j == 9, sum == *expected)
-        };
-        let (cr_digits, cr_sum) = range_atoms("customer_balance_proof", &cp_st.z[3]);
-        let (mr_digits, mr_sum) = range_atoms("merchant_balance_proof", &cp_st.z[4]);
-        let sn = indep::sc(ft.bytes_at("old_nonce_commitment_scalar").unwrap()).unwrap();
-        let stg = indep::sc(ft.bytes_at("close_tag_commitment_scalar").unwrap()).unwrap();
-        let z = &sp_pt.cp.z;
-        let atoms = json!({
-            "token_sigma1_not_identity": pt_wf, "token_schnorr": pt_schnorr, "token_pairing": pt_pair,
-            "schnorr_revlock": cp_rl.schnorr_g1(&rev_h, &[rev_g], &c1),
-            "schnorr_state": cp_st.schnorr_g1(&pkv.g1, &pkv.y1s, &c1),
-            "schnorr_close": cp_cl.schnorr_g1(&pkv.g1, &pkv.y1s, &c1),
-            "cb_digits": cr_digits, "cb_range_link": cr_sum, "mb_digits": mr_digits, "mb_range_link": mr_sum,
-            "cid_state_close": cp_st.z[0] == cp_cl.z[0], "cid_close_token": cp_cl.z[0] == z[0],
-            "tag_close": cp_cl.z[1] == c1 * CLOSE_SCALAR + stg,
-            "old_locks_equal": cp_rl.z[0] == z[2],
-            "new_locks_equal": cp_st.z[2] == cp_cl.z[2],
-            "nonce_token": z[1] == c1 * claimed_nonce_s + sn,
-            "cb_state_close": cp_st.z[3] == cp_cl.z[3], "mb_state_close": cp_st.z[4] == cp_cl.z[4],
-            "cb_updated": cp_st.z[3] == z[3] - c1 * ca_s, "mb_updated": cp_st.z[4] == z[4] + c1 * ca_s,
-            "challenge_is_sha3_of_transcript": indep::challenge_of_transcript(&tr1) == c1,
-        });
+        let atoms = pay_atoms(&ft, m, &c1, &claimed_nonce_s, &ca_s, &tr1);
 
         // ---- truth of the statement for the (final) hidden values
         let truth = token_ok && hpt[1] == claimed_nonce_s
@@ -768,6 +729,62 @@ impl GameEnv {
                "clusters": st["clusters"]})
     }
 
+    /// A pay proof around the all-identity blinded signature.  Such a proof cannot arrive as bytes
+    /// (the decoder refuses sigma1 = identity) but is reachable in-process through the library's own
+    /// prover with chosen randomness: a `Ready` customer (decoded from bytes, so its state can claim
+    /// any old balance next to any well-formed pay token) runs `start` on a randomness stream whose
+    /// k-th scalar draw is zero; k is found by search (the draw that re-randomises the pay token).
+    pub fn pay_identity(&mut self, st: &Value) -> Value {
+        let info = self.honest_ready(st["cb"].as_u64().unwrap_or(100), st["mb"].as_u64().unwrap_or(50), &[]);
+        let amount = st["amount"].as_i64().unwrap_or(7);
+        let mut rng = self.rng(6);
+        let m: &'static merchant::Config = self.world.mers[0];
+        let cfg = customer_config_of(m);
+        let pk = m.signing_keypair().public_key().clone();
+        let inflate = st["hpt"][3].as_str().map(|x| x != "ok").unwrap_or(false);
+        let c = &self.world.chans[&info.ch];
+        let tree = c.cust.tree();
+        let mut rb = tree.bytes.clone();
+        let mut old = info.old;
+        if inflate {
+            let v: u64 = 1_000_000;
+            patch(&mut rb, &tree, "state.customer_balance", &v.to_le_bytes());
+            old[3] = Scalar::from(v);
+        }
+        let token_ok = info.token.verify(&pk, &Message::new(old));
+        let amt: PaymentAmount = bincode::deserialize(&amount.to_le_bytes()).unwrap();
+        let ctx = info.ctx;
+        let identity_enc = G1Affine::identity().to_compressed();
+        let mut found = None;
+        for k in 1..140usize {
+            let ready: customer::Ready = bincode::deserialize(&rb).expect("crafted Ready decodes");
+            let mut script = vec![crate::rngs::Draw::Generic; k - 1];
+            script.push(crate::rngs::Draw::Zero);
+            let mut srng = crate::rngs::Scripted::new(script, self.seed + k as u64);
+            let r = std::panic::catch_unwind(std::panic::AssertUnwindSafe(|| ready.start(&mut srng, amt, &ctx, &cfg)));
+            if let Ok(Ok((_started, msg))) = r {
+                let t = Tree::of(&msg.pay_proof);
+                if t.bytes_at("old_pay_token_proof.blinded_signature.sigma1") == Some(&identity_enc[..]) {
+                    found = Some((k, msg, t));
+                    break;
+                }
+            }
+        }
+        let _ = take_challenge_log();
+        let (k, msg, ft) = match found {
+            Some(x) => x,
+            None => return json!({"ev": "game", "proof": "pay", "id": st["id"], "error": "no randomness stream yields the identity signature"}),
+        };
+        let nonce_s = indep::sc(&bincode::serialize(&msg.nonce).unwrap()).unwrap();
+        let res = m.allow_payment(&mut rng, amt, &msg.nonce, msg.pay_proof, &ctx);
+        let accepted = res.is_some();
+        let (tr1, c1) = last_challenge().unwrap_or((vec![], Scalar::zero()));
+        let atoms = pay_atoms(&ft, m, &c1, &nonce_s, &amount_scalar(amount), &tr1);
+        json!({"ev": "game", "proof": "pay", "id": st["id"], "strategy": st["name"], "accepted": accepted, "atoms": atoms,
+               "truth": token_ok, "token_ok": false, "sigs": {}, "zero_draw_index": k,
+               "challenge_changed_after_late_choice": false, "clusters": st["clusters"]})
+    }
+
     /// which non-response atoms of an honest PayProof are bound by the merchant's challenge
     pub fn observe_pay(&mut self) -> Value {
         let info = self.honest_ready(100, 50, &[]);
@@ -801,6 +818,61 @@ impl GameEnv {
         }
         json!({"proof": "pay", "honest_accepted": ok0, "transcript_len": tr0.len(), "atoms": atoms})
     }
+}
+
+/// truth value of every relation of the specified PayProof verifier, evaluated independently on the
+/// wire atoms of `ft` under challenge `c1`
+pub fn pay_atoms(ft: &Tree, m: &merchant::Config, c1: &Scalar, claimed_nonce_s: &Scalar, ca_s: &Scalar, tr1: &[u8]) -> Value {
+    let pk = m.signing_keypair().public_key().clone();
+    let pkv = Pk::from_tree(&Tree::of(&pk), "").unwrap();
+    let rpk = Pk::from_tree(&Tree::of(m.range_constraint_parameters()), "public_key").unwrap();
+    let revt = Tree::of(m.revocation_commitment_parameters());
+    let (rev_h, rev_g) = (indep::g1(revt.bytes_at("h").unwrap()).unwrap(), indep::g1(revt.bytes_at("gs.0").unwrap()).unwrap());
+    let ft = ft;
+        let sp_pt = Sp::from_tree(&ft, "old_pay_token_proof").unwrap();
+        let cp_rl = Cp { c: ft.bytes_at("old_revocation_lock_proof.commitment").unwrap().to_vec(),
+                         t: ft.bytes_at("old_revocation_lock_proof.scalar_commitment").unwrap().to_vec(),
+                         zbf: indep::sc(ft.bytes_at("old_revocation_lock_proof.blinding_factor_response_scalar").unwrap()).unwrap(),
+                         z: vec![indep::sc(ft.bytes_at("old_revocation_lock_proof.message_response_scalars.0").unwrap()).unwrap()] };
+        let cp_st = Cp::from_tree(&ft, "state_proof.commitment_proof").unwrap();
+        let cp_cl = Cp::from_tree(&ft, "close_state_proof.commitment_proof").unwrap();
+        let (pt_wf, pt_schnorr, pt_pair) = sp_pt.relations(&pkv, c1);
+        let range_atoms = |prefix: &str, expected: &Scalar| -> (bool, bool) {
+            let mut all = true;
+            let mut sum = Scalar::zero();
+            let mut pow = Scalar::one();
+            let mut j = 0;
+            while let Some(sp) = Sp::from_tree(&ft, &format!("{}.digit_proofs.{}", prefix, j)) {
+                let (a, b, c) = sp.relations(&rpk, c1);
+                all = all && a && b && c;
+                sum += pow * sp.cp.z[0];
+                pow *= Scalar::from(128u64);
+                j += 1;
+            }
+            (all && j == 9, sum == *expected)
+        };
+        let (cr_digits, cr_sum) = range_atoms("customer_balance_proof", &cp_st.z[3]);
+        let (mr_digits, mr_sum) = range_atoms("merchant_balance_proof", &cp_st.z[4]);
+        let sn = indep::sc(ft.bytes_at("old_nonce_commitment_scalar").unwrap()).unwrap();
+        let stg = indep::sc(ft.bytes_at("close_tag_commitment_scalar").unwrap()).unwrap();
+        let z = &sp_pt.cp.z;
+        let atoms = json!({
+            "token_sigma1_not_identity": pt_wf, "token_schnorr": pt_schnorr, "token_pairing": pt_pair,
+            "schnorr_revlock": cp_rl.schnorr_g1(&rev_h, &[rev_g], c1),
+            "schnorr_state": cp_st.schnorr_g1(&pkv.g1, &pkv.y1s, c1),
+            "schnorr_close": cp_cl.schnorr_g1(&pkv.g1, &pkv.y1s, c1),
+            "cb_digits": cr_digits, "cb_range_link": cr_sum, "mb_digits": mr_digits, "mb_range_link": mr_sum,
+            "cid_state_close": cp_st.z[0] == cp_cl.z[0], "cid_close_token": cp_cl.z[0] == z[0],
+            "tag_close": cp_cl.z[1] == *c1 * CLOSE_SCALAR + stg,
+            "old_locks_equal": cp_rl.z[0] == z[2],
+            "new_locks_equal": cp_st.z[2] == cp_cl.z[2],
+            "nonce_token": z[1] == *c1 * claimed_nonce_s + sn,
+            "cb_state_close": cp_st.z[3] == cp_cl.z[3], "mb_state_close": cp_st.z[4] == cp_cl.z[4],
+            "cb_updated": cp_st.z[3] == z[3] - *c1 * ca_s, "mb_updated": cp_st.z[4] == z[4] + *c1 * ca_s,
+            "challenge_is_sha3_of_transcript": indep::challenge_of_transcript(&tr1) == *c1,
+        });
+
+    atoms
 }
 
 mod erased {
